@@ -53,6 +53,24 @@ CHECKS = {
 PENDING_REASON = "check not built yet (work in progress; planned per DESIGN.md §6)"
 
 
+# alphabets / history operations added in the later seeding rounds (DESIGN.md §13.4, rounds 3-6); the authoritative
+# enumeration rule of each check is the `rule` string in its evidence file
+ADDENDA = {
+ "C01": " Later rounds added: T grids descending / with T = 0 inside / of lengths 7-16, integer and zero weights, reads that fail on a not-yet-usable input and are retried, a run of selected cases in an interpreter started with -O; the calculator-like object is a real Calculator created without __init__.",
+ "C02": " Later rounds added: the gap of the non-shear keys as delivered by the real task list for six strain fields incl. un-normalised ones; -O run.",
+ "C03": " Later rounds added: strain arrays of 0 (bare triple) to 4 rows, integer dtype, un-normalised triples, five dictionary layouts, target keys built by the public classmethods from numpy integers, float32/float16 storage of the known components, all ordered pairs of solver objects fed from one dictionary.",
+ "C04": " Later rounds added: un-normalised and integer strain fields, volume grids of 1/3/5 points, one task-list object resolved repeatedly; -O run.",
+ "C05": " Later rounds added dimensions: QHA fit order 4/5, working directory with decoy inputs, row orders, formula units, integer / zero weights, negative linear compressibility, tables with the symmetry of a system that is not requested (explicit zero columns), five spellings of the lattice-block header incl. trailing columns, number format of the P= V= E= headers, static table tabulated at its own volumes; -O run.",
+ "C06": " Later rounds added: square (T,V) grids, static_only runs, grids whose top/bottom lies in the last/first volume interval, overshoot by less than P_MIN, sparse sampling, overshoot x output sections; -O run.",
+ "C07": " Later rounds added: all 4096 component subsets, read histories, cell masses 1-24000 g/mol in four notations, nearly singular positive-definite tensors, runs under -O; the file-less calculator is a real Calculator object.",
+ "C10": " Later rounds added: numpy-integer and classmethod spellings (all attributes compared), two-argument rejects with two-digit arguments, the whole domain repeated under -O.",
+ "C12": " Later rounds added: 39 method/order pairs, volume counts, weights, QHA order, pressure grids incl. the largest admissible NTV, non-dyadic temperature steps, header number formats, wiring comparison with interpolate_modes for the configured method/order; a refusal of an enumerated configuration is a violation.",
+ "C13": " Later rounds added bases: dense q-mesh, one per interpolation method for volume-block orders, repeated branches, coinciding q-point labels, trigonal table without requested system; weight scales 1e-12..1e9.",
+ "C14": " Later rounds added: cwd situations incl. decoy inputs, interpreter started with -O / locale C / narrow terminal, a data set with keys in another letter case under eight hash seeds; history operations run-static, cij fill, refused construction, input files rewritten in place, fill with the residual check off; invariants: working directory and process-wide library options (pandas, numpy, decimal, locale) unchanged after every operation.",
+ "C15": " Later rounds added: grids with DT_SAMPLE != DT, fractional T_MIN, descending pressures; every keyword and alias through the settings file in four forms; writer objects with packaged and user rules kept alive together; a table contradicting its system with the residual check off; request objects compared after writing.",
+}
+
+
 def main():
     done = [i for i in IDS if i in CHECKS and os.path.exists(os.path.join(VERIF, "mc", "props", i.lower() + ".py"))]
     try:
@@ -81,7 +99,7 @@ def main():
         man["checks"].append({
             "property_id": i, "quick_cmd": f"./check {i} --tier quick", "thorough_cmd": f"./check {i} --tier thorough",
             "evidence_file": f"evidence/{i}.json", "replay_cmd_template": f"./check {i} --replay {{path}}", "engine": "mc",
-            "level_claimed": {"category": "model_checking", "text": t[0], "design_ref": "DESIGN.md §" + t[3]},
+            "level_claimed": {"category": "model_checking", "text": t[0] + ADDENDA.get(i, ""), "design_ref": "DESIGN.md §" + t[3]},
             "level_note": t[1], "technique": t[2]})
     for i in IDS:
         if i not in done:
